@@ -215,9 +215,12 @@ class _CachedStorage(BaseStorage, BaseHeartbeat):
         deepcopy: bool = True,
         states: Container[TrialState] | None = None,
     ) -> list[FrozenTrial]:
-        self._read_trials_from_remote_storage(study_id)
-
         with self._lock:
+            # The cache is refreshed and read in one critical section. Otherwise, a trial that
+            # another thread adds to the cache in between would be returned together with stale
+            # copies of the trials that were refreshed before it was created.
+            self._read_trials_from_remote_storage(study_id)
+
             study = self._studies[study_id]
             # We need to sort trials by their number because some samplers assume this behavior.
             # The following two lines are latency-sensitive.
@@ -232,28 +235,28 @@ class _CachedStorage(BaseStorage, BaseHeartbeat):
             return copy.deepcopy(trials) if deepcopy else trials
 
     def _read_trials_from_remote_storage(self, study_id: int) -> None:
-        with self._lock:
-            if study_id not in self._studies:
-                self._studies[study_id] = _StudyInfo()
-            study = self._studies[study_id]
-            trials = self._backend._get_trials(
-                study_id,
-                states=None,
-                included_trial_ids=study.unfinished_trial_ids,
-                trial_id_greater_than=study.last_finished_trial_id,
-            )
-            if not trials:
-                return
+        # NOTE: ``self._lock`` must be held by the caller.
+        if study_id not in self._studies:
+            self._studies[study_id] = _StudyInfo()
+        study = self._studies[study_id]
+        trials = self._backend._get_trials(
+            study_id,
+            states=None,
+            included_trial_ids=study.unfinished_trial_ids,
+            trial_id_greater_than=study.last_finished_trial_id,
+        )
+        if not trials:
+            return
 
-            self._add_trials_to_cache(study_id, trials)
-            for trial in trials:
-                if not trial.state.is_finished():
-                    study.unfinished_trial_ids.add(trial._trial_id)
-                    continue
+        self._add_trials_to_cache(study_id, trials)
+        for trial in trials:
+            if not trial.state.is_finished():
+                study.unfinished_trial_ids.add(trial._trial_id)
+                continue
 
-                study.last_finished_trial_id = max(study.last_finished_trial_id, trial._trial_id)
-                if trial._trial_id in study.unfinished_trial_ids:
-                    study.unfinished_trial_ids.remove(trial._trial_id)
+            study.last_finished_trial_id = max(study.last_finished_trial_id, trial._trial_id)
+            if trial._trial_id in study.unfinished_trial_ids:
+                study.unfinished_trial_ids.remove(trial._trial_id)
 
     def _add_trials_to_cache(self, study_id: int, trials: list[FrozenTrial]) -> None:
         study = self._studies[study_id]
